@@ -53,22 +53,29 @@ func c15GetAllPartition(e *EtcdOp, ctx context.Context, filters []api.PartitionF
 
 // c15Target follows the documented contract of TargetClient.GetDatabaseName: a
 // live database name is returned unchanged; for a database dropped upstream the
-// downstream is searched: either one downstream database still holds the
-// collection or none does (util.NotFoundDatabase).
+// downstream is searched for the collection: some downstream database still holds
+// it or none does (util.NotFoundDatabase). The answer is fixed per collection name.
 type c15Target struct {
 	api.DefaultTargetAPI
-	found bool
-	tdb   string
+	names []string // collection names living in databases dropped upstream
+	found []bool
+	tdbs  []string
 }
 
 func (t *c15Target) GetDatabaseName(ctx context.Context, collectionName, databaseName string) (string, error) {
 	if !IsDroppedObject(databaseName) {
 		return databaseName, nil
 	}
-	if !t.found {
+	found, tdb := false, ""
+	for i, n := range t.names {
+		hit := n == collectionName
+		found = vOr(found, vAnd(hit, t.found[i]))
+		tdb = vIteStr(vAnd(hit, t.found[i]), t.tdbs[i], tdb)
+	}
+	if !found {
 		return "", util.NotFoundDatabase
 	}
-	return t.tdb, nil
+	return tdb, nil
 }
 
 type c15Coll struct {
@@ -100,9 +107,12 @@ func VerifC15_Snapshot() {
 	c15Now = vU64("now")
 	vAssume(vAnd(c15Now >= 2, c15Now < 1<<62))
 	e := &EtcdOp{rootPath: "by-dev", metaSubPath: "meta", etcdClient: &clientv3.Client{KV: &c15KV{}}}
-	// databases: db 1 live; db 2 live or dropped upstream
-	d1 := c15Name("db1", L)
-	vAssume(d1 != TomeObject)
+	// databases: each live or dropped upstream (tombstoned: only known as "_tome")
+	d1 := TomeObject
+	if vBool("db1.live") {
+		d1 = c15Name("db1", L)
+		vAssume(d1 != TomeObject)
+	}
 	e.dbID2Name.Store(1, d1)
 	d2 := TomeObject
 	if vBool("db2.live") {
@@ -112,7 +122,7 @@ func VerifC15_Snapshot() {
 	e.dbID2Name.Store(2, d2)
 	var tgt *c15Target
 	if vChoice("target", 2) == 1 {
-		tgt = &c15Target{found: vBool("target.holdsDroppedDB"), tdb: c15Name("target.db", L)}
+		tgt = &c15Target{}
 		e.targetMilvus = tgt
 	}
 	// collections
@@ -133,7 +143,13 @@ func VerifC15_Snapshot() {
 		// which database name the snapshot must key the record under
 		c.resolved, c.db = true, c.origDB
 		if tgt != nil && IsDroppedObject(c.origDB) {
-			c.resolved, c.db = tgt.found, tgt.tdb
+			// the downstream's answer for this collection of a dropped database
+			f, tdb := vBool("target.holdsCollection"), c15Name("target.db", L)
+			for _, n := range tgt.names {
+				vAssume(n != c.name) // one answer per collection name
+			}
+			tgt.names, tgt.found, tgt.tdbs = append(tgt.names, c.name), append(tgt.found, f), append(tgt.tdbs, tdb)
+			c.resolved, c.db = f, tdb
 		}
 		e.collectionID2Name.Store(c.id, c.name)
 		e.collectionID2DBID.Store(c.id, dbID)
@@ -235,9 +251,9 @@ func VerifC15_Snapshot() {
 		vAssert(from, "C15.no-spurious-database-entry")
 		vAssert(v == c15Now-1, "C15.database-horizon-just-below-now")
 	}
-	if tgt != nil && tgt.found {
+	if tgt != nil {
 		for _, c := range colls {
-			if IsDroppedObject(c.origDB) {
+			if IsDroppedObject(c.origDB) && c.resolved {
 				_, key := util.GetDBInfoKeys(c.db)
 				_, ok := c15Lookup(dbTab, key)
 				vAssert(ok, "C15.database-gone-upstream-present-downstream-has-entry")
